@@ -3,6 +3,10 @@ type nat =
 | O
 | S of nat
 
+val fst : ('a1 * 'a2) -> 'a1
+
+val snd : ('a1 * 'a2) -> 'a2
+
 val length : 'a1 list -> nat
 
 val app : 'a1 list -> 'a1 list -> 'a1 list
@@ -12,21 +16,7 @@ type comparison =
 | Lt
 | Gt
 
-val compOpp : comparison -> comparison
-
 val add : nat -> nat -> nat
-
-val nth : nat -> 'a1 list -> 'a1 -> 'a1
-
-val rev : 'a1 list -> 'a1 list
-
-val map : ('a1 -> 'a2) -> 'a1 list -> 'a2 list
-
-val skipn : nat -> 'a1 list -> 'a1 list
-
-val seq : nat -> nat -> nat list
-
-val repeat : 'a1 -> nat -> 'a1 list
 
 type positive =
 | XI of positive
@@ -44,6 +34,14 @@ type z =
 
 module Pos :
  sig
+  type mask =
+  | IsNul
+  | IsPos of positive
+  | IsNeg
+ end
+
+module Coq_Pos :
+ sig
   val succ : positive -> positive
 
   val add : positive -> positive -> positive
@@ -52,15 +50,24 @@ module Pos :
 
   val pred_double : positive -> positive
 
-  val pred_N : positive -> n
+  type mask = Pos.mask =
+  | IsNul
+  | IsPos of positive
+  | IsNeg
+
+  val succ_double_mask : mask -> mask
+
+  val double_mask : mask -> mask
+
+  val double_pred_mask : positive -> mask
+
+  val sub_mask : positive -> positive -> mask
+
+  val sub_mask_carry : positive -> positive -> mask
 
   val mul : positive -> positive -> positive
 
   val iter : ('a1 -> 'a1) -> 'a1 -> positive -> 'a1
-
-  val div2 : positive -> positive
-
-  val div2_up : positive -> positive
 
   val compare_cont : comparison -> positive -> positive -> comparison
 
@@ -76,7 +83,7 @@ module Pos :
 
   val coq_land : positive -> positive -> n
 
-  val ldiff : positive -> positive -> n
+  val shiftl : positive -> n -> positive
 
   val iter_op : ('a1 -> 'a1 -> 'a1) -> positive -> 'a1 -> 'a1
 
@@ -87,15 +94,45 @@ module Pos :
 
 module N :
  sig
-  val succ_pos : n -> positive
+  val succ_double : n -> n
+
+  val double : n -> n
 
   val add : n -> n -> n
 
+  val sub : n -> n -> n
+
   val mul : n -> n -> n
+
+  val compare : n -> n -> comparison
+
+  val eqb : n -> n -> bool
+
+  val leb : n -> n -> bool
+
+  val ltb : n -> n -> bool
+
+  val min : n -> n -> n
+
+  val max : n -> n -> n
+
+  val div2 : n -> n
+
+  val pos_div_eucl : positive -> n -> n * n
+
+  val div_eucl : n -> n -> n * n
+
+  val div : n -> n -> n
+
+  val modulo : n -> n -> n
 
   val coq_lor : n -> n -> n
 
-  val ldiff : n -> n -> n
+  val coq_land : n -> n -> n
+
+  val shiftl : n -> n -> n
+
+  val shiftr : n -> n -> n
 
   val to_nat : n -> nat
 
@@ -104,37 +141,7 @@ module N :
 
 module Z :
  sig
-  val double : z -> z
-
-  val succ_double : z -> z
-
-  val pred_double : z -> z
-
-  val pos_sub : positive -> positive -> z
-
-  val add : z -> z -> z
-
   val opp : z -> z
-
-  val sub : z -> z -> z
-
-  val mul : z -> z -> z
-
-  val pow_pos : z -> positive -> z
-
-  val pow : z -> z -> z
-
-  val compare : z -> z -> comparison
-
-  val leb : z -> z -> bool
-
-  val ltb : z -> z -> bool
-
-  val geb : z -> z -> bool
-
-  val gtb : z -> z -> bool
-
-  val eqb : z -> z -> bool
 
   val to_nat : z -> nat
 
@@ -143,107 +150,142 @@ module Z :
   val of_nat : nat -> z
 
   val of_N : n -> z
-
-  val pos_div_eucl : positive -> z -> z * z
-
-  val div_eucl : z -> z -> z * z
-
-  val div : z -> z -> z
-
-  val modulo : z -> z -> z
-
-  val div2 : z -> z
-
-  val shiftl : z -> z -> z
-
-  val shiftr : z -> z -> z
-
-  val coq_land : z -> z -> z
  end
 
-val wrap32 : z -> z
+val nth_error : 'a1 list -> nat -> 'a1 option
 
-val tABLE : z list
+val fold_left : ('a1 -> 'a2 -> 'a1) -> 'a2 list -> 'a1 -> 'a1
 
-val iNV_TABLE : z list
+val repeat : 'a1 -> nat -> 'a1 list
 
-val enc_val0 : z
+val invalid_key : n
 
-val enc_valb0 : z
+val init_size : n
 
-val enc_shift : z
+val size_plus : n
 
-val enc_valb_add : z
+val mult_num : n
 
-val enc_loop_bound : z
+val mult_den : n
 
-val enc_mask : z
+val thr_sub : n
 
-val enc_valb_sub : z
+val thr_num : n
 
-val enc_tail_bound : z
+val thr_den : n
 
-val enc_tail_shl : z
+val grow_factor : n
 
-val enc_tail_add : z
+val mask_shl : n
 
-val enc_tail_mask : z
+val mask_or : n
 
-val enc_pad_mod : z
+val round_shifts : n list
 
-val pad_char : z
+type 'a res =
+| Ok of 'a
+| ErrFuel
+| ErrBounds
+| ErrFull
 
-val dec_val0 : z
+val bind : 'a1 res -> ('a1 -> 'a2 res) -> 'a2 res
 
-val dec_valb0 : z
+val invalid : n
 
-val dec_pad_char : z
+val get : 'a1 list -> n -> 'a1 option
 
-val dec_reject : z
+val upd_nat : 'a1 list -> nat -> 'a1 -> 'a1 list
 
-val dec_shift : z
+val upd : 'a1 list -> n -> 'a1 -> 'a1 list
 
-val dec_valb_add : z
+val two64 : n
 
-val dec_out_bound : z
+val round_buckets : n -> n
 
-val dec_mask : z
+val mask_double : n -> n
 
-val dec_valb_sub : z
+type 'v entry = n * 'v
 
-val tbl : z -> z
+val ekey : 'a1 entry -> n
 
-val inv : z -> z
+val set_key : 'a1 entry -> n -> 'a1 entry
 
-val sel : z -> z -> z -> z
+type 'v ptable = { cells : 'v entry list; nbuckets : n; mask0 : n; entries : n }
 
-val enc_drain : nat -> z -> z -> (z list * z) option
+val ideal : (n -> n) -> n -> n -> n
 
-val drain_fuel : nat
+val next : n -> n -> n
 
-val enc_bytes : z list -> z -> z -> ((z list * z) * z) option
+val find_loop : nat -> 'a1 entry list -> n -> n -> n -> n option res
 
-val enc_pad : nat -> z list
+val find : (n -> n) -> 'a1 ptable -> n -> n option res
 
-val base64_encode : z list -> z list option
+val foi_loop :
+  nat -> 'a1 ptable -> n -> 'a1 entry -> ((bool * n) * 'a1 ptable) res
 
-type dres =
-| DOk of z list
-| DBadChar of z
-| DLengthError
+val find_or_insert :
+  (n -> n) -> 'a1 ptable -> 'a1 entry -> ((bool * n) * 'a1 ptable) res
 
-val count_padding_rev : z list -> nat
+val ui_loop :
+  nat -> 'a1 entry list -> n -> n -> 'a1 entry -> ('a1 entry list * n) res
 
-val count_padding : z list -> nat
+val unchecked_insert :
+  (n -> n) -> 'a1 entry list -> n -> 'a1 entry -> ('a1 entry list * n) res
 
-val dec_loop : z list -> z -> z -> dres
+val park_loop :
+  nat -> 'a1 entry list -> n -> 'a1 entry list -> ('a1 entry list * 'a1 entry
+  list) res
 
-val base64_decode : z list -> dres
+val reinsert_loop :
+  (n -> n) -> nat -> 'a1 entry list -> n -> n -> 'a1 entry list res
 
-val b64_alphabet : z list
+val unpark_loop :
+  (n -> n) -> 'a1 entry list -> 'a1 entry list -> n -> 'a1 entry list res
 
-val alpha : z -> z
+val double0 : 'a1 -> (n -> n) -> 'a1 ptable -> 'a1 ptable res
 
-val rfc4648 : z list -> z list
+type 'v auto = { backend : 'v ptable; threshold : n }
 
-val strip_padding : z list -> z list
+val threshold_of : n -> n
+
+val initial_buckets : n -> n
+
+val auto_init_n : 'a1 -> n -> 'a1 auto
+
+val auto_init : 'a1 -> 'a1 auto
+
+val auto_size : 'a1 auto -> n
+
+val double_if_needed : 'a1 -> (n -> n) -> 'a1 auto -> 'a1 auto res
+
+val auto_find_or_insert :
+  'a1 -> (n -> n) -> 'a1 auto -> 'a1 entry -> ((bool * n) * 'a1 auto) res
+
+val auto_insert :
+  'a1 -> (n -> n) -> 'a1 auto -> 'a1 entry -> (n * 'a1 auto) res
+
+val auto_find : (n -> n) -> 'a1 auto -> n -> n option res
+
+val value_at : 'a1 auto -> n -> 'a1 option
+
+val auto_update :
+  (n -> n) -> 'a1 auto -> n -> 'a1 -> (n option * 'a1 auto) res
+
+type 'v op =
+| OpFindOrInsert of n * 'v
+| OpInsert of n * 'v
+| OpFind of n
+| OpUpdate of n * 'v
+
+type 'v answer =
+| AFoundOrInserted of bool * n * 'v option
+| AInserted of n
+| AFind of (n * 'v option) option
+| AUpdate of n option
+
+val step :
+  'a1 -> (n -> n) -> 'a1 auto -> 'a1 op -> ('a1 answer * 'a1 auto) res
+
+val run :
+  'a1 -> (n -> n) -> 'a1 auto -> 'a1 op list -> ('a1 answer list * 'a1 auto)
+  res
